@@ -54,6 +54,7 @@ def parseOp (ts : List String) : Option Op :=
   | "tupdate" :: id :: rest => let m := kvs rest; some (.tupdate id (undash (look m "id")) (undash (look m "s")))
   | "tdelete" :: id :: _ => some (.tdelete id)
   | "restart" :: _ => some .restart
+  | "die" :: id :: _ => some (.die id)
   | _ => none
 
 /-- One row of the task listing: ID, definition, executing flag. -/
